@@ -28,6 +28,8 @@ enum Expect {
 }
 
 struct Plan {
+    /// the caller follows redirects (the response is a redirect to `/c03-next`, which answers 200)
+    followed: bool,
     method: &'static str,
     status: u16,
     cl: Vec<String>,
@@ -225,6 +227,13 @@ fn gen(g: &mut G) -> Plan {
     }
     let folded = folded || bad_line;
     headers.push(("X-T".into(), b"1".to_vec()));
+    // (no draw) the same unacceptable length on a redirect that the caller follows: the exchange fails all the same,
+    // the hop is not waved through because its body would not have been read anyway
+    let followed = matches!(status, 301 | 302 | 307) && expect == Expect::Fail && method != "HEAD" && n % 2 == 0;
+    if followed {
+        headers.push(("Location".into(), b"/c03-next".to_vec()));
+        g.probe("unacceptable-length-on-a-redirect-that-is-followed");
+    }
     let mut wire = Wire::default();
     wire.bytes = httpref::encode_head(status, "Whatever", &headers);
     wire.head_len = wire.bytes.len();
@@ -263,6 +272,7 @@ fn gen(g: &mut G) -> Plan {
         end,
         expect,
         use_bytes: g.chance(1, 2),
+        followed,
         folded,
         seg_name,
         script,
@@ -283,7 +293,7 @@ fn caller(p: &Plan) -> Obs {
     let mut o = Obs { send_err: None, read_err: None, output: Vec::new(), t_body: (0, 0), t_end: 0 };
     let url = format!("http://{}/r", bodyx::HOST_IP);
     let r = attohttpc::RequestBuilder::new(attohttpc::Method::from_bytes(p.method.as_bytes()).unwrap(), url)
-        .follow_redirects(false)
+        .follow_redirects(p.followed)
         .read_timeout(Duration::from_secs(3600))
         .send();
     let mut resp = match r {
